@@ -476,6 +476,22 @@ def c18rel (fn : String) (a : List String) : Option String := do
     some (if must.all got.contains && !(mustNot.any fun f => got.contains f && !must.contains f) then "holds" else "FAILS")
   | _, _ => none
 
+/-- `sequence:N`: the keys are N, N+1, … in order -/
+def seqOK (start : Nat) : List Nat → Bool
+  | [] => true
+  | k :: ks => k == start && seqOK (start + 1) ks
+
+def c12seq (fn : String) (a : List String) : Option String := do
+  match fn, a with
+  | "c12.seq", [_layout, start, keys] =>
+    let ks ← (keys.splitOn ".").mapM decNat?
+    some (if seqOK (← decNat? start) ks then "ok" else "err 2003")
+  | "o.c12.seq", [_layout, start, keys, obs] =>
+    let ks ← (keys.splitOn ".").mapM decNat?
+    some (if seqOK (← decNat? start) ks then (if obs == "ok" then "holds" else "FAILS")
+          else (if obs.startsWith "err" then "holds" else "FAILS"))
+  | _, _ => none
+
 def imp (fn : String) (a : List String) : Option String := do
   match fn, a with
   | "imp.grid", [style, g] =>
@@ -506,6 +522,7 @@ def dispatch (line : String) : String :=
     let r :=
       if fn.startsWith "imp." || fn.startsWith "o.imp." then imp fn args
       else if fn.startsWith "c18.related" || fn.startsWith "o.c18.related" then c18rel fn args
+      else if fn.startsWith "c12.seq" || fn.startsWith "o.c12.seq" then c12seq fn args
       else if fn.startsWith "c14." || fn.startsWith "o.c14." then c14 fn args
       else if fn.startsWith "c07.corrupt" || fn.startsWith "o.c07.corrupt" || fn.startsWith "w.c07." || fn.startsWith "c07.skip" || fn.startsWith "o.c07.skip" then tp fn args
       else if fn.startsWith "c07.book" || fn.startsWith "o.c07.book" then c11 fn args
